@@ -61,6 +61,15 @@ func genMux(seed uint64, n int, maxOps int, demux bool, emit func(interface{})) 
 			emit(sc)
 			continue
 		}
+		if s == 37 {
+			// packets that came out of the Demuxer, written again as they are
+			sc.Ops = append(sc.Ops, muxOp{Op: "add", PID: 0x100, ST: 27, DK: "none"}, muxOp{Op: "setpcr", PID: 0x100}, muxOp{Op: "tables"})
+			for i := 0; i < 6; i++ {
+				sc.Ops = append(sc.Ops, muxOp{Op: "packet", Kind: []string{"parsedextonly", "parsedext"}[i%2]}, muxOp{Op: "data", PID: 0x100, Len: r.pick(1, 100, 300), Hdr: "pts", AF: "none"})
+			}
+			emit(sc)
+			continue
+		}
 		if s == 25 {
 			// a stream removed, then 260 other streams added and removed, then the first one added again: it carries on where it stopped
 			sc.Period = 40
@@ -136,7 +145,7 @@ func genMux(seed uint64, n int, maxOps int, demux bool, emit func(interface{})) 
 			case x < 25 || (churn && x < 75):
 				sc.Ops = append(sc.Ops, muxOp{Op: "tables"})
 			case x < 28:
-				sc.Ops = append(sc.Ops, muxOp{Op: "packet", Kind: r.pickS("null", "short", "pcr", "toobig", "toobigaf", "nopltoobig", "hugeaf", "hugeafonly", "hugestuff", "privlen", "negstuff", "negstuff", "nilaf")})
+				sc.Ops = append(sc.Ops, muxOp{Op: "packet", Kind: r.pickS("null", "short", "pcr", "toobig", "toobigaf", "nopltoobig", "hugeaf", "hugeafonly", "hugestuff", "privlen", "negstuff", "negstuff", "nilaf", "parsedext", "parsedextonly")})
 			case x < 30:
 				sc.Ops = append(sc.Ops, muxOp{Op: "data", PID: 999, Len: 10, Hdr: "pts", AF: "none"})
 			default:
